@@ -342,6 +342,26 @@ func (s *scen) deliver(p string, probe bool) (obs string, viol string) {
 			if fmt.Sprint(got) != fmt.Sprint(before) {
 				return "", fmt.Sprintf("undecodable payload %q changed the rules in force from %v to %v", short, before, got)
 			}
+			// the same bytes once more (a datasource re-reads an unchanged file): rejected again. The reference state
+			// does not move on a rejection, so the search would not look behind it by itself
+			var err2 error
+			func() {
+				defer func() {
+					if r := recover(); r != nil {
+						viol = fmt.Sprintf("Handle(%q) panicked out to the datasource on the second delivery: %v", p, r)
+					}
+				}()
+				err2 = s.h.Handle([]byte(p))
+			}()
+			if viol != "" {
+				return "", viol
+			}
+			if err2 == nil {
+				return "", fmt.Sprintf("undecodable payload %q was accepted without an error when delivered a second time", short)
+			}
+			if got2 := s.m.Get(); fmt.Sprint(got2) != fmt.Sprint(before) {
+				return "", fmt.Sprintf("undecodable payload %q changed the rules in force from %v to %v when delivered a second time", short, before, got2)
+			}
 			return "rejected", ""
 		}
 		if err != nil {
